@@ -41,6 +41,8 @@ structure Proc where
   rt : Nat := 0           -- generation of the refresh token read under the lock
   newGen : Nat := 0       -- generation granted by the provider, to be written
   status : Nat := 0       -- HTTP status once done
+  seen : Option Nat := none    -- generation of the session as first read (before the lock): what GetOrRefresh falls back to when the refresh fails softly
+  served : Option Nat := none  -- proxied request: generation of the access token the upstream was given (none = forwarded without a token / not a proxied request)
   deriving Repr, DecidableEq
 
 structure St where
@@ -49,6 +51,7 @@ structure St where
   idpCur : Nat               -- generation of the refresh token the provider currently honours
   presented : List Nat       -- refresh-token generations presented to the provider, oldest first
   procs : Pid → Proc
+  base : Nat := 0            -- generation of the token pair at the start of the schedule (constant)
   createLocks : Bool := true -- session_manager.go:Create takes the per-key lock around its write (false = the tree before fix 078aa22, kept for the witness)
 
 /-- what a holder of the OLD cookie can read: the entry, if it is still its own session -/
@@ -71,6 +74,13 @@ def setProc (s : St) (p : Pid) (x : Proc) : St := { s with procs := fun q => if 
 @[simp] theorem setProc_idpCur (s : St) (p : Pid) (x : Proc) : (setProc s p x).idpCur = s.idpCur := rfl
 @[simp] theorem setProc_presented (s : St) (p : Pid) (x : Proc) : (setProc s p x).presented = s.presented := rfl
 @[simp] theorem setProc_createLocks (s : St) (p : Pid) (x : Proc) : (setProc s p x).createLocks = s.createLocks := rfl
+@[simp] theorem setProc_base (s : St) (p : Pid) (x : Proc) : (setProc s p x).base = s.base := rfl
+
+/-- token handed to the upstream by a proxied request that finishes at the first read: the stored one when no refresh is due (cooldown running) -/
+def servedAtGet (k : Kind) (se : Option Sess) : Option Nat :=
+  match k, se with
+  | .proxy, some v => if v.fresh then some v.gen else none
+  | _, _ => none
 
 /-- holding (or about to release) the refresh lock -/
 def inCrit : PC → Bool
@@ -104,7 +114,9 @@ def step (s : St) (p : Pid) : St × String :=
   let x := s.procs p
   match x.pc with
   | .start => (setProc s p { x with pc := startNext x.kind }, "START")
-  | .get => (setProc s p { x with pc := (getNext x.kind (mine s.sess)).1, status := (getNext x.kind (mine s.sess)).2 }, "GET session")
+  | .get =>
+    let n := getNext x.kind (mine s.sess)
+    (setProc s p { x with pc := n.1, status := n.2, seen := (mine s.sess).map (fun v => v.gen), served := servedAtGet x.kind (mine s.sess) }, "GET session")
   | .code => (setProc s p { x with pc := if s.createLocks then .lock else .write }, "IDP authorization_code")
   | .lock =>
     match s.lock with
@@ -115,9 +127,10 @@ def step (s : St) (p : Pid) : St × String :=
       "SET-EX session")
   | .reread =>
     match mine s.sess with
-    | none => (setProc s p { x with pc := .unlock, status := if x.kind = .proxy then 200 else 401 }, "GET session")
+    | none =>   -- gone (or replaced by a new login's) meanwhile: the refresh fails softly; a proxied request falls back to the session it read first
+      (setProc s p { x with pc := .unlock, status := if x.kind = .proxy then 200 else 401, served := if x.kind = .proxy then x.seen else none }, "GET session")
     | some v =>
-      if v.fresh then (setProc s p { x with pc := .unlock, status := 200 }, "GET session")      -- already refreshed by someone else
+      if v.fresh then (setProc s p { x with pc := .unlock, status := 200, served := if x.kind = .proxy then some v.gen else none }, "GET session")      -- already refreshed by someone else
       else (setProc s p { x with pc := .idp, rt := v.gen }, "GET session")
   | .idp =>
     let s' := { s with presented := s.presented ++ [x.rt] }
@@ -126,8 +139,10 @@ def step (s : St) (p : Pid) : St × String :=
   | .update =>
     match s.sess with
     | some v =>   -- SET XX: succeeds on ANY existing value, and what it writes is the old session sealed with the old data key
-      ({ setProc s p { x with pc := .unlock, status := 200 } with sess := some { v with gen := x.newGen, fresh := true, owner := 0 } }, "SETXX-KEEPTTL session")
-    | none => (setProc s p { x with pc := .unlock, status := if x.kind = .proxy then 200 else 401 }, "SETXX-KEEPTTL session")   -- update only if present
+      ({ setProc s p { x with pc := .unlock, status := 200, served := if x.kind = .proxy then some x.newGen else none } with
+          sess := some { v with gen := x.newGen, fresh := true, owner := 0 } }, "SETXX-KEEPTTL session")
+    | none =>   -- update only if present; a proxied request falls back to the session it read first (GetOrRefresh: "falling back to existing tokens")
+      (setProc s p { x with pc := .unlock, status := if x.kind = .proxy then 200 else 401, served := if x.kind = .proxy then x.seen else none }, "SETXX-KEEPTTL session")
   | .unlock =>
     ({ setProc s p { x with pc := .done } with lock := if s.lock = some p then none else s.lock }, "UNLOCK")
   | .del =>
@@ -154,6 +169,6 @@ def runAll (s : St) (evs : List Ev) : St := evs.foldl apply s
 
 /-- initial state: a session of generation g0 with an expiry, nobody holds the lock, every process about to start -/
 def init (kinds : Pid → Kind) (g0 : Nat) : St :=
-  { sess := some { gen := g0, fresh := false, hasTtl := true }, lock := none, idpCur := g0, presented := [], procs := fun p => { kind := kinds p } }
+  { sess := some { gen := g0, fresh := false, hasTtl := true }, lock := none, idpCur := g0, presented := [], procs := fun p => { kind := kinds p }, base := g0 }
 
 end Ww.Model.Sched
